@@ -29,6 +29,8 @@ type c08SeqOp struct {
 }
 
 func TestVerifC08Seq(t *testing.T) {
+	c08LongOn = true
+	defer func() { c08LongOn = false }()
 	shard, _ := strconv.Atoi(os.Getenv("VERIF_SHARD"))
 	nshards, _ := strconv.Atoi(os.Getenv("VERIF_NSHARDS"))
 	if nshards == 0 {
@@ -87,10 +89,22 @@ func TestVerifC08Seq(t *testing.T) {
 				// sequential program: bound the wait, then free the goroutine and report
 				cctx, ccancel := context.WithCancel(ctx)
 				done := make(chan []Message, 1)
-				go func() { done <- o.GetNext(cctx, robust.Id{Id: op.Id}) }()
+				panicked := ""
+				go func() {
+					defer func() {
+						if r := recover(); r != nil {
+							panicked = fmt.Sprint(r)
+							done <- nil
+						}
+					}()
+					done <- o.GetNext(cctx, robust.Id{Id: op.Id})
+				}()
 				select {
 				case msgs = <-done:
 					ccancel()
+					if panicked != "" {
+						return "panic: " + panicked
+					}
 				case <-time.After(c08StuckWait):
 					ccancel()
 					c08StuckWait = time.Second // one report is enough to fail the run: do not wait as long again
@@ -118,7 +132,7 @@ func TestVerifC08Seq(t *testing.T) {
 				}
 				return fmt.Sprintf("GetNext(%d) returned %s, want batch %d", op.Id, got, want)
 			}
-			if len(msgs) != 2 || msgs[0].Data != fmt.Sprintf("msg %d.1", want) || msgs[1].Data != fmt.Sprintf("msg %d.2", want) || !msgs[0].InterestingFor[1] || !msgs[1].InterestingFor[2] {
+			if len(msgs) != 2 || msgs[0].Data != c08Data(want, 1) || msgs[1].Data != c08Data(want, 2) || !msgs[0].InterestingFor[1] || !msgs[1].InterestingFor[2] {
 				return fmt.Sprintf("GetNext(%d) returned batch %d with wrong content", op.Id, want)
 			}
 		case "get":
@@ -126,7 +140,7 @@ func TestVerifC08Seq(t *testing.T) {
 			if ok != model[op.Id] {
 				return fmt.Sprintf("Get(%d) found=%v, model says %v", op.Id, ok, model[op.Id])
 			}
-			if ok && (len(msgs) != 2 || msgs[0].Data != fmt.Sprintf("msg %d.1", op.Id) || msgs[0].Id.Id != op.Id || msgs[1].Id.Reply != 2) {
+			if ok && (len(msgs) != 2 || msgs[0].Data != c08Data(op.Id, 1) || msgs[1].Data != c08Data(op.Id, 2) || msgs[0].Id.Id != op.Id || msgs[1].Id.Reply != 2) {
 				return fmt.Sprintf("Get(%d) returned wrong content", op.Id)
 			}
 		case "lastseen":
